@@ -1,10 +1,13 @@
-(* Spec/UpdateP.v — C03's reference semantics: mapping documents whose nodes (scalars AND mappings) carry a priority.
+(* Spec/UpdateP.v — C03's reference semantics: mapping documents whose nodes (scalars, whole lists AND mappings) carry a priority.
    Two values meeting at a path: two mappings are merged key by key (the result carries the higher of the two priorities);
    in every other case the OLDER value survives iff its priority is STRICTLY higher, otherwise the newer one replaces it. *)
 From AY Require Export Model.Node.
 
+(* what is not a mapping is an atom: a scalar, or a list taken as a whole (its plain content) *)
+Inductive atom := AS (v : scalar) | AL (l : list plain).
+
 Inductive pp :=
-| PPS (p : Z) (v : scalar)
+| PPS (p : Z) (v : atom)
 | PPD (p : Z) (kv : list (key * pp)).
 
 Definition ppri (d : pp) : Z := match d with PPS p _ | PPD p _ => p end.
@@ -28,6 +31,29 @@ Fixpoint upd_p (old new : pp) {struct new} : pp :=
     end
   | PPS pn _ => if ppri old >? pn then old else new
   end.
+
+(* a mapping never meets a list at the same path (a scalar may meet anything): the side condition under which the implementation
+   is the update - where a list meets a mapping the library protects or merges single entries, which is outside this reference *)
+Fixpoint lcompat (old new : pp) {struct new} : Prop :=
+  match new with
+  | PPD _ kv =>
+    match old with
+    | PPD _ okv =>
+      (fix go (l : list (key * pp)) : Prop :=
+         match l with
+         | [] => True
+         | (k, v) :: r => (match aget k okv with Some ov => lcompat ov v | None => True end) /\ go r
+         end) kv
+    | PPS _ (AL _) => False
+    | PPS _ (AS _) => True
+    end
+  | PPS _ (AL _) => match old with PPD _ _ => False | _ => True end
+  | PPS _ (AS _) => True
+  end.
+
+(* ... along a whole history *)
+Fixpoint hcompat (d0 : pp) (ds : list pp) : Prop :=
+  match ds with [] => True | d :: r => lcompat d0 d /\ hcompat (upd_p d0 d) r end.
 
 (* the value at a path *)
 Fixpoint pget (d : pp) (q : path) : option pp :=
